@@ -116,11 +116,20 @@ package types
 // rhe(x): x / 10^18 rounded half-to-even (banker's rounding), sign-symmetric
 //@ pure rheNN(x int) int = ite((x % 1000000000000000000) * 2 < 1000000000000000000, x / 1000000000000000000, ite((x % 1000000000000000000) * 2 > 1000000000000000000, x / 1000000000000000000 + 1, ite((x / 1000000000000000000) % 2 == 0, x / 1000000000000000000, x / 1000000000000000000 + 1)))
 //@ pure rhe(x int) int opaque = ite(x >= 0, rheNN(x), 0 - rheNN(0 - x))
+// rounding a non-negative number gives a non-negative number (proved once as a lemma; the
+// quantified form is what other proofs use)
+//@ lemma rhe_nonneg(x int)
+//@   props C41,C26
+//@   reveal rhe
+//@   requires x >= 0
+//@   ensures rhe(x) >= 0
+//@ axiom [rhe-nonneg: lemma rhe_nonneg] forall x int {rhe(x)} :: x >= 0 ==> rhe(x) >= 0
 //@ pure inDec(v int) bool = 0 - pow2(315) < v && v < pow2(315)
 
 //@ global precisionReuse value != nil && bigv[value] == 1000000000000000000
 //@ global fivePrecision value != nil && bigv[value] == 500000000000000000
 //@ global oneInt value != nil && bigv[value] == 1
+//@ global PowerReduction value.i != nil && bigv[value.i] == 1000000
 //@ global zeroInt value != nil && bigv[value] == 0
 //@ global precisionMultipliers len(value) == 19 && value[0] != nil && bigv[value[0]] == 1000000000000000000
 
@@ -451,4 +460,16 @@ package types
 //@   ensures result != nil && errCode(result) == code
 //@ func TimeTrack
 //@   trusted logging of elapsed wall time only (the instant passed in never reaches any state)
+//@   pure_fn
+
+// NewDecWithPrec(i, prec): i * 10^(18-prec); the contracts only use prec == 2 (percentages)
+//@ func NewDecWithPrec
+//@   trusted table lookup of the precision multiplier (precisionMultipliers[prec] == 10^(18-prec)); stated for prec == 0 and prec == 2
+//@   modifies bigv
+//@   ensures result.i != nil && fresh(result.i)
+//@   ensures prec == 2 ==> bigv[result.i] == i * 10000000000000000
+//@   ensures prec == 0 ==> bigv[result.i] == i * 1000000000000000000
+//@   ensures forall p int {bigv[p]} :: isold(p) ==> bigv[p] == old(bigv[p])
+//@ func (BigDec).String
+//@   trusted decimal formatting (reads the value only)
 //@   pure_fn
